@@ -334,6 +334,39 @@ pub fn run(ctx: &Ctx) -> i32 {
                     st.bump("violations_raw");
                 }
             }
+            // operator listings over a table with more than 64 operators (every 16th case)
+            if i % 16 == 7 {
+                let big: Table = (0..rng.range(66, 100))
+                    .map(|k| {
+                        if k % 7 == 3 {
+                            crate::sym::OpSpec::un(crate::sym::intern(&format!("f{k}q")), (k % 64) as u8)
+                        } else {
+                            crate::sym::OpSpec::bin(crate::sym::intern(&format!("o{k}q")), (k % 64) as u8, (k % 5) as i64, false)
+                        }
+                    })
+                    .collect();
+                install(&big);
+                // a tree that uses a handful of the operators, preferably with high indices
+                let few: Vec<usize> = (0..5).map(|_| if rng.chance(2, 3) { rng.range(60, big.len() - 1) } else { rng.below(big.len()) }).collect();
+                let small: Table = few.iter().map(|k| big[*k].clone()).collect();
+                let k = rng.range(2, 7);
+                let t_small = gen_tree(rng, &small, k, &GenCfg { lit_num: 2, un_num: 2, ..GenCfg::default() });
+                fn remap(t: &Tree, few: &[usize]) -> Tree {
+                    match t {
+                        Tree::Un(o, a) => Tree::un(few[*o], remap(a, few)),
+                        Tree::Bin(o, a, b) => Tree::bin(few[*o], remap(a, few), remap(b, few)),
+                        _ => t.clone(),
+                    }
+                }
+                // `small` may hold only binary or only unary operators; gen_tree copes with both
+                let t_big = remap(&t_small, &few);
+                let text_big = render_plain(&t_big, &big);
+                st.bump("listing_cases_with_more_than_64_operators_in_the_table");
+                if let Some(what) = listing_problem(&t_big, &big, &text_big) {
+                    st.violation(format!("listing-big-table|{text_big}|{}", big.len()), text_big.len(), json!({"kind": "operator-listing", "text": text_big, "operators_in_table": big.len(), "problem": what}));
+                }
+                install(&table);
+            }
             // operator listings
             st.bump("listing_cases");
             if let Some(what) = listing_problem(&tree, &table, &text) {
@@ -399,6 +432,7 @@ pub fn run(ctx: &Ctx) -> i32 {
     .assume("soup strings in the known-finding class K2 (prefix style: a binary-only operator where an operand is expected, not call notation) are counted and not judged; its listed witnesses are run as a fixed catalogue")
     .require("conversion_steps", 1000)
     .require("listing_cases", 1000)
+    .require("listing_cases_with_more_than_64_operators_in_the_table", 100)
     .require("soup_both_accept", 1000);
     finish(ctx, stats, report)
 }
